@@ -583,6 +583,9 @@ def run(ctx) -> None:
     ctx.check(ok_quiet and nquiet >= 1, RWX, "ProcessWatcher.run silent exit only when stopped", msgx or "no silent exit path found", W.methods["run"].loc)
 
     trick_contracts(ctx, P)
+    from ..flow import check_attrs_initialised
+
+    check_attrs_initialised(ctx, RS, P, ["EventDebouncer", "ProcessWatcher", "AutoRestartTrick", "ShellCommandTrick"], "the trick / its helper thread fails at that point: the child is not restarted, or stop() raises half-way and leaves the child running")
 
     # ---------------------------------------------------------------- ShellCommandTrick
     S = P.cls("ShellCommandTrick")
@@ -614,6 +617,7 @@ DB = "utils/event_debouncer.py"
 TR = "tricks/__init__.py"
 PW = "utils/process_watcher.py"
 VARIANTS = [
+    dict(name="B stopping lock never created", expect="fire", rule="C18/", edits=[("tricks/__init__.py", "        self._stopping_lock = threading.RLock()\n", "")]),
     dict(name="B debouncer created but never started", expect="fire", rule="C18/restart-sequencing", edits=[("tricks/__init__.py", "            self.event_debouncer.start()\n", "            pass\n")]),
     dict(name="B debouncer only without an interval", expect="fire", rule="C18/restart-sequencing", edits=[("tricks/__init__.py", "        if self.debounce_interval_seconds:\n            self.event_debouncer = EventDebouncer(", "        if not self.debounce_interval_seconds:\n            self.event_debouncer = EventDebouncer(")]),
     dict(name="B restarts only on opened events", expect="fire", rule="C18/restart-sequencing", edits=[("tricks/__init__.py", "    @echo_events\n    def on_any_event(self, event: FileSystemEvent) -> None:\n        if event.event_type in {EVENT_TYPE_OPENED, EVENT_TYPE_CLOSED_NO_WRITE}:\n            # FIXME: see issue #949, and find a way to better handle that scenario\n            return\n\n        if self.event_debouncer", "    @echo_events\n    def on_any_event(self, event: FileSystemEvent) -> None:\n        if event.event_type not in {EVENT_TYPE_OPENED, EVENT_TYPE_CLOSED_NO_WRITE}:\n            return\n\n        if self.event_debouncer")]),
